@@ -343,9 +343,24 @@ class State:
         if z3.is_app(arr) and arr.num_args() > 0:
             nm = z3.Const(self.fresh_name("hp_" + "".join(ch if ch.isalnum() else "_" for ch in key)), arr.sort())
             self.assume(nm == arr)
+            if not hasattr(self, "hdefs"):
+                self.hdefs = {}
+            self.hdefs[nm.get_id()] = arr
             arr = nm
         self.heap[key] = arr
         self.written.add(key)
+
+    def resolve_select(self, t):
+        """Select(hp_k, r) where hp_k names Store(A, r, v)  ->  v  (syntactic)"""
+        defs = getattr(self, "hdefs", {})
+        for _ in range(8):
+            if z3.is_select(t) and t.arg(0).get_id() in defs:
+                d = defs[t.arg(0).get_id()]
+                if z3.is_store(d) and d.arg(1).eq(t.arg(1)):
+                    t = d.arg(2)
+                    continue
+            break
+        return t
 
     def allocate(self, clsname, hint="obj"):
         r = self.fresh(RefS, hint)
